@@ -4,6 +4,8 @@ import ISnap.Model.Site
 import ISnap.Model.Table
 import ISnap.Model.Value
 import ISnap.Driver.SiteCmd
+import ISnap.Driver.AlignCmd
+import ISnap.Driver.StrCmd
 /-
   isnap-driver: one s-expression per line in, one per line out (DESIGN.md §3.7).
   Unknown or malformed input answers `(bad-op)`, never a default.
@@ -13,7 +15,11 @@ open ISnap
 def handle (e : Sexp) : Sexp :=
   match e with
   | .list (.atom "sites" :: rest) => (SiteCmd.run rest).getD (.list [.atom "bad-op"])
-  | .list [.atom "ping"] => .list [.atom "pong"]
+  | .list (.atom "align" :: rest) => (AlignCmd.run rest).getD (.list [.atom "bad-op"])
+  | .list (.atom c :: rest) =>
+    if c == "strlit" || c == "pyrepr" || c == "bytesrepr" || c == "evallit" || c == "evalbytes" then
+      (StrCmd.run c rest).getD (.list [.atom "bad-op"])
+    else if c == "ping" then .list [.atom "pong"] else .list [.atom "bad-op"]
   | _ => .list [.atom "bad-op"]
 
 partial def loop (h : IO.FS.Stream) (out : IO.FS.Stream) : IO Unit := do
